@@ -214,6 +214,8 @@ pub struct BarM {
     /// oldest snapshot the screen may still show (guaranteed render attempts, last shown)
     pub lo: Option<usize>,
     pub shown: Option<usize>,
+    /// was the bar's block part of the last flushed frame?
+    pub on_screen: bool,
 }
 
 fn expand_tabs(s: &str, tab: usize) -> String {
@@ -338,6 +340,8 @@ pub struct World {
     pub logs: Vec<String>,
     pub bottom: bool,
     pub ever_bottom: bool,
+    /// a dropped member may linger in the real list until it reaches the head
+    pub dropped_members: bool,
     pub stats: Stats,
     pub fail: Option<Fail>,
     pub dead: bool,
@@ -378,6 +382,7 @@ impl World {
             logs: Vec::new(),
             bottom: false,
             ever_bottom: false,
+            dropped_members: false,
             stats: Stats::default(),
             fail: None,
             dead: false,
@@ -575,6 +580,7 @@ impl World {
                     snaps: Vec::new(),
                     lo: None,
                     shown: None,
+                    on_screen: false,
                 };
                 m.snapshot();
                 let style = ProgressStyle::with_template(&template_string(tmpl))
@@ -595,7 +601,7 @@ impl World {
                 // normalise the location against the model (see DESIGN: index-based inserts are
                 // only meaningful while no finished-and-dropped bar may still sit in the list)
                 let n = self.order.len();
-                let ghost = self.any_ghost();
+                let ghost = self.any_ghost() || self.dropped_members;
                 let member = |w: &World, x: usize| {
                     w.bars
                         .get(x)
@@ -919,6 +925,7 @@ impl World {
                 // last handle(s): the bar state is dropped
                 ctx.acting = Some(*b);
                 let was_finished = bar.m.finished();
+                let was_on_screen = bar.m.on_screen;
                 if !was_finished {
                     let fin = bar.m.fin.clone();
                     bar.m.apply_finish(&fin);
@@ -940,7 +947,7 @@ impl World {
                             let at = order.iter().position(|x| x == b).unwrap();
                             let ahead = order[..at].iter().copied().filter(|x| alive.contains(x)).collect();
                             let behind = order[at + 1..].iter().copied().filter(|x| alive.contains(x)).collect();
-                            bar.m.place = Place::Ghost { required: true, ahead, behind };
+                            bar.m.place = Place::Ghost { required: !was_finished || was_on_screen, ahead, behind };
                             became_ghost = true;
                         } else {
                             bar.m.place = Place::Gone;
@@ -957,6 +964,7 @@ impl World {
                 }
                 if left_order {
                     self.order.retain(|x| x != b);
+                    self.dropped_members = true;
                 }
                 let _ = multi;
                 Some(Box::new(move || drop(handles)))
@@ -973,6 +981,7 @@ impl World {
                 self.stats.removes += 1;
                 self.intervene();
                 ctx.acting = None;
+                ctx.forced = true;
                 Some(Box::new(move || mp.remove(&h)))
             }
             Op::MpClear => {
@@ -1122,14 +1131,19 @@ impl World {
         let flat = |lines: &[String]| -> Vec<String> {
             lines.iter().flat_map(|l| phys_rows(l, width)).collect::<Vec<_>>()
         };
+        // rows below the last non-blank row read as blank (the snapshot drops trailing blanks)
         let starts = |r: usize, p: &[String]| -> bool {
-            !p.is_empty() && r + p.len() <= got.len() && got[r..r + p.len()] == p[..]
+            !p.is_empty()
+                && r < got.len()
+                && p.iter().enumerate().all(|(i, x)| got.get(r + i).map_or(x.is_empty(), |g| g == x))
         };
 
         // ---- parse ----------------------------------------------------------------------------
         let mut items: Vec<Item> = Vec::new();
         let mut r = 0usize;
         let mut next_log = 0usize;
+        #[allow(unused_assignments)]
+        let mut end_row = got.len();
         while r < got.len() {
             let t = &got[r];
             if t.is_empty() {
@@ -1163,7 +1177,7 @@ impl World {
                             let lines = &bar.m.snaps[k];
                             for j in (1..lines.len()).rev() {
                                 let p = flat(&lines[..j]);
-                                if starts(r, &p) && r + p.len() == got.len() {
+                                if starts(r, &p) && r + p.len() >= got.len() {
                                     kind = Kind::Partial(k, j);
                                     used = p.len();
                                     break 'outer;
@@ -1212,6 +1226,8 @@ impl World {
                 }
             }
         }
+
+        end_row = r.max(got.len());
 
         // ---- unknown rows, block content ---------------------------------------------------------
         let mut seen: Vec<(usize, usize)> = Vec::new(); // (bar id, item index)
@@ -1343,8 +1359,16 @@ impl World {
         let mut truncated = partial_tail.is_some();
         if let Some((id, k, j)) = partial_tail {
             let bar = self.bars[id].as_ref().unwrap();
-            let next = &bar.m.snaps[k][j];
-            if generous_rows + phys_rows(next, width).len() <= height {
+            // any acceptable state with the same leading lines whose next line does not fit
+            // justifies the cut
+            let hi = bar.m.cur();
+            let lo = bar.m.lo.unwrap_or(0).max(bar.m.shown.unwrap_or(0)).min(hi);
+            let shown = flat(&bar.m.snaps[k][..j]);
+            let justified = (lo..=hi).any(|k2| {
+                let l = &bar.m.snaps[k2];
+                l.len() > j && flat(&l[..j]) == shown && generous_rows + phys_rows(&l[j], width).len() > height
+            });
+            if !justified {
                 return Err((
                     "member-content",
                     format!("B{id} is cut after {j} line(s) although the next one fits ({generous_rows} rows used, height {height}): {}", dump()),
@@ -1373,6 +1397,19 @@ impl World {
             ))
         };
         if !cleared {
+            // a finished-and-dropped bar that may still be part of the real list (not yet reaped)
+            // and does not fit any more cuts the frame in front of everything behind it
+            for b in self.bars.iter().flatten() {
+                if matches!(b.m.place, Place::Ghost { .. }) && posn(b.m.id).is_none() {
+                    let hi = b.m.cur();
+                    let lo = b.m.lo.unwrap_or(0).max(b.m.shown.unwrap_or(0)).min(hi);
+                    if (lo..=hi).any(|k| {
+                        !b.m.snaps[k].is_empty() && generous_rows + phys_rows(&b.m.snaps[k][0], width).len() > height
+                    }) {
+                        truncated = true;
+                    }
+                }
+            }
             for id in self.order.clone() {
                 check_presence(self, id, "member-missing", &mut truncated)?;
             }
@@ -1414,9 +1451,10 @@ impl World {
             }
         }
         // trailing empty log lines are invisible when nothing follows them
-        let block_after_last_log = items[last_log_item.map_or(0, |p| p + 1)..]
-            .iter()
-            .any(|it| matches!(it, Item::Block { .. }));
+        // (they would sit at the very end of the screen, which is only legitimate when no live
+        // bar is painted)
+        let _ = last_log_item;
+        let block_after_last_log = first_member_item.is_some();
         let mut missing_blank = 0usize;
         for (k, c) in seen_logs.iter().enumerate() {
             if *c == 0 {
@@ -1455,8 +1493,14 @@ impl World {
 
         // ---- cursor -----------------------------------------------------------------------------
         if self.check_cursor && !truncated {
-            let want = (got.len() + missing_blank, 0usize);
-            if s.next_pos != want {
+            let want = (end_row + missing_blank, 0usize);
+            let ok = if self.ever_bottom {
+                // bottom alignment keeps the height of the region: blank rows may remain
+                s.next_pos.1 == 0 && s.next_pos.0 >= want.0
+            } else {
+                s.next_pos == want
+            };
+            if !ok {
                 return Err((
                     "cursor-not-fresh-line",
                     format!("next character would land at {:?}, expected {:?}: {}", s.next_pos, want, dump()),
@@ -1472,6 +1516,12 @@ impl World {
             self.last_frame_rows = frame_rows;
             if first_member_item.is_none() && !logs.is_empty() {
                 self.stats.text_only_draws += 1;
+            }
+        }
+        if s.kind == SnapKind::Flush {
+            let ids: Vec<usize> = chosen.iter().map(|(id, _)| *id).collect();
+            for b in self.bars.iter_mut().flatten() {
+                b.m.on_screen = ids.contains(&b.m.id);
             }
         }
         for (id, k) in chosen {
